@@ -4,6 +4,7 @@ package main
 // calls by contract, inlining, havoc.
 
 import (
+	"sort"
 	"os"
 	"fmt"
 	"go/ast"
@@ -139,6 +140,7 @@ func (c *VC) shouldInline(fi *FuncInfo) bool {
 func (c *VC) evalCall(st *State, call *ast.CallExpr) []*Term {
 	c.callSiteAsserts(st, call)
 	rs := c.evalCall1(st, call)
+	c.callbackEffects(st, call)
 	if c.pendErr != nil && c.ghost == 0 && len(c.frames) == 1 {
 		if pend, ok := st.env[c.pendErr]; ok {
 			for i, rt := range c.resultTypes(call) {
@@ -1309,8 +1311,6 @@ func (c *VC) mergeRets(rets []*retState, res []*types.Var) (*State, []*Term) {
 }
 
 func (c *VC) inlineLit(st *State, lit *ast.FuncLit, call *ast.CallExpr) []*Term {
-	c.inlineDepth++
-	defer func() { c.inlineDepth-- }()
 	fr := c.cur()
 	tv, _ := fr.view.typeOf(lit)
 	sig := tv.Type.(*types.Signature)
@@ -1322,6 +1322,16 @@ func (c *VC) inlineLit(st *State, lit *ast.FuncLit, call *ast.CallExpr) []*Term 
 		}
 		args = append(args, v)
 	}
+	return c.inlineLitArgs(st, lit, args)
+}
+
+// inlineLitArgs executes a function literal's body with the given argument values.
+func (c *VC) inlineLitArgs(st *State, lit *ast.FuncLit, args []*Term) []*Term {
+	c.inlineDepth++
+	defer func() { c.inlineDepth-- }()
+	fr := c.cur()
+	tv, _ := fr.view.typeOf(lit)
+	sig := tv.Type.(*types.Signature)
 	// execute the literal body in the current frame, with its own return collection
 	saveRets, saveResults, saveTargets := fr.rets, fr.results, fr.targets
 	saveFi := fr.fi
@@ -1385,6 +1395,88 @@ func (c *VC) inlineLit(st *State, lit *ast.FuncLit, call *ast.CallExpr) []*Term 
 		}
 	}
 	return vals
+}
+
+// callbackEffects: a function literal passed to a call whose body is not inlined may be run by the
+// callee any number of times. After such a call the variables the literal assigns hold arbitrary
+// values; the literal's body is executed once from that arbitrary state so that the obligations
+// inside it (call-site assertions, callee preconditions, panics) are generated; and under
+// guard-errors a non-nil error obtained inside the callback must leave the callback with the
+// captured error variable non-nil and the result false (callbacks of the Range* helpers stop the
+// iteration by returning false - assumed).
+func (c *VC) callbackEffects(st *State, call *ast.CallExpr) {
+	if c.ghost > 0 || c.noName || st.dead() {
+		return
+	}
+	if id, ok := ast.Unparen(call.Fun).(*ast.Ident); ok && (ghostBuiltins[id.Name] || id.Name == "append" || id.Name == "len") {
+		return
+	}
+	var lits []*ast.FuncLit
+	for _, a := range call.Args {
+		if l, ok := ast.Unparen(a).(*ast.FuncLit); ok {
+			lits = append(lits, l)
+		}
+	}
+	if len(lits) == 0 {
+		return
+	}
+	if fn := c.staticCallee(call); fn != nil {
+		name := fullName(fn)
+		if name == "sort.Slice" || name == "sort.SliceStable" || c.isPureName(fn) {
+			return
+		}
+		if fi := c.prog.funcs[fn]; fi != nil && (fi.Ghost || c.shouldInline(fi)) {
+			return
+		}
+	}
+	fr := c.cur()
+	for _, lit := range lits {
+		ef := c.effectsOf(lit.Body)
+		var objs []types.Object
+		for o := range ef.vars {
+			if _, ok := st.env[o]; ok && !fr.boxed[o] && !fr.arrBoxed[o] {
+				objs = append(objs, o)
+			}
+		}
+		sort.Slice(objs, func(i, j int) bool { return objs[i].Pos() < objs[j].Pos() })
+		for _, o := range objs {
+			nv := c.fresh(o.Name(), st.env[o].Sort)
+			st.env[o] = nv
+			c.addFact(tTrue, c.wfAt(st, nv, o.Type()))
+		}
+		if len(c.frames) != 1 || c.inlineDepth > 0 {
+			continue
+		}
+		tv, _ := fr.view.typeOf(lit)
+		sig, ok := tv.Type.(*types.Signature)
+		if !ok {
+			continue
+		}
+		sub := st.clone()
+		var args []*Term
+		for i := 0; i < sig.Params().Len(); i++ {
+			pv := c.fresh("cb_"+sig.Params().At(i).Name(), c.sortOf(sig.Params().At(i).Type()))
+			c.addFact(tTrue, c.wfAt(sub, pv, sig.Params().At(i).Type()))
+			args = append(args, pv)
+		}
+		if c.pendErr != nil {
+			sub.env[c.pendErr] = tFalse
+		}
+		vals := c.inlineLitArgs(sub, lit, args)
+		if c.pendErr != nil && !sub.dead() {
+			errT := types.Universe.Lookup("error").Type()
+			var errVars []types.Object
+			for _, o := range objs {
+				if types.Identical(o.Type(), errT) {
+					errVars = append(errVars, o)
+				}
+			}
+			if pend, ok := sub.env[c.pendErr]; ok && len(errVars) == 1 && len(vals) == 1 && vals[0].Sort == sortBool {
+				goal := mkImplies(pend, mkAnd(mkNot(vals[0]), mkNot(mkEq(sub.env[errVars[0]], intLit64(0)))))
+				c.addObl("own/error-propagation", "callback: a non-nil error obtained inside the callback stops the iteration and stays in "+errVars[0].Name(), lit.Pos(), sub.pc, goal)
+			}
+		}
+	}
 }
 
 // callSiteAsserts: `//@ callsite f: e` on the contract of the function under verification states
@@ -1496,12 +1588,14 @@ func (c *VC) sortSliceIntrinsic(st *State, call *ast.CallExpr) ([]*Term, bool) {
 		return nil, false
 	}
 	lit, ok := ast.Unparen(call.Args[1]).(*ast.FuncLit)
-	if !ok || len(lit.Body.List) != 1 {
+	if !ok {
 		return nil, false
 	}
-	ret, ok := lit.Body.List[0].(*ast.ReturnStmt)
-	if !ok || len(ret.Results) != 1 {
-		return nil, false
+	var ret *ast.ReturnStmt
+	if len(lit.Body.List) == 1 {
+		if r, ok := lit.Body.List[0].(*ast.ReturnStmt); ok && len(r.Results) == 1 {
+			ret = r
+		}
 	}
 	sl, ok := c.typeOf(call.Args[0]).Underlying().(*types.Slice)
 	if !ok {
@@ -1565,11 +1659,24 @@ func (c *VC) sortSliceIntrinsic(st *State, call *ast.CallExpr) ([]*Term, bool) {
 		c.quantDepth++
 		c.ghost++
 		nf := len(c.facts)
-		body := c.evalCond(sub, ret.Results[0])
+		var body *Term
+		if ret != nil {
+			body = c.evalCond(sub, ret.Results[0])
+		} else {
+			// a comparator with statements (switch over the key kind): executed symbolically with
+			// the two indices bound; paths that panic contribute nothing
+			vals := c.inlineLitArgs(sub, lit, []*Term{b, a})
+			if len(vals) == 1 {
+				body = vals[0]
+			}
+		}
 		c.ghost--
 		c.quantDepth--
 		c.noName = saveNN
 		c.facts = c.facts[:nf]
+		if body == nil {
+			return nil, true
+		}
 		rng := mkAnd(c.cmp(token.LEQ, c.idxLit(0), a, it), c.cmp(token.LSS, a, b, it), c.cmp(token.LSS, b, ln, it))
 		c.facts = append(c.facts, mkForall([]*Term{a, b}, mkImplies(rng, mkNot(body))))
 	}
